@@ -6,6 +6,7 @@ import (
 	"bytes"
 
 	"github.com/cockroachdb/pebble"
+	"github.com/cockroachdb/pebble/vfs"
 	"github.com/jamf/regatta/internal/verif"
 	"github.com/jamf/regatta/regattapb"
 	sm "github.com/lni/dragonboat/v4/statemachine"
@@ -172,4 +173,35 @@ func VH_C03_vacuity() {
 	out, err := f.Update([]sm.Entry{vhEntry(3, &regattapb.Command{Table: []byte("t"), Type: regattapb.Command_DUMMY, LeaderIndex: &li})})
 	verif.Assume(err == nil && len(out) == 1 && vhReadIndex(f, true) == 5 && vhReadIndex(f, false) == 3)
 	verif.Assert(false, "vacuity")
+}
+
+// VH_C03_restart: the state after a restart is the state before it. Three
+// arbitrary plain commands (put / delete / delete range over 1-byte keys, so
+// keys are overwritten and deleted again) are applied to a table on a file
+// system, each in its own apply call; the table is closed (which flushes) and
+// reopened: same content, same index as the reference - nothing that was
+// deleted comes back, nothing is lost.
+func VH_C03_restart(k1, k2, k3 int) {
+	mem := vfs.NewMem()
+	f := vhFSMOn(mem, "/data/t-10001")
+	_, err := f.Open(nil)
+	verif.Assume(err == nil)
+	ref := &vhRef{}
+	idx := uint64(0)
+	for _, k := range []int{k1, k2, k3} {
+		cmd, _ := vhSimpleCmd(k, ref, 1, "")
+		idx++
+		_, err := f.Update([]sm.Entry{vhEntry(idx, cmd)})
+		verif.Assert(err == nil, "apply succeeds")
+	}
+	vhWholeTable(f, ref, "before the restart")
+	verif.Assert(f.Close() == nil, "close succeeds")
+	f2 := vhFSMOn(mem, "/data/t-10001")
+	got, err := f2.Open(nil)
+	verif.Assert(err == nil && got == idx, "reopen reports the applied index")
+	if err != nil {
+		return
+	}
+	vhWholeTable(f2, ref, "after the restart")
+	verif.Cover("end")
 }
